@@ -1,0 +1,43 @@
+//go:build verif
+
+package metrics
+
+import "time"
+
+// SlidingWindowForVerif exposes a sliding window with a caller-chosen lifetime.
+// Verification builds only (the public path hard-codes 60 s).
+type SlidingWindowForVerif struct{ w *slidingWindow }
+
+// NewSlidingWindowForVerif creates a window and launches its cleaner.
+func NewSlidingWindowForVerif(lifetime time.Duration) (*SlidingWindowForVerif, error) {
+	w, err := newSlidingWindow(lifetime)
+	if err != nil {
+		return nil, err
+	}
+	return &SlidingWindowForVerif{w: w}, nil
+}
+
+// Add adds a sample.
+func (s *SlidingWindowForVerif) Add(v int64) { s.w.Add(v) }
+
+// Samples returns the current samples.
+func (s *SlidingWindowForVerif) Samples() []int64 { return s.w.Samples() }
+
+// Stop ends the cleaner goroutine.
+func (s *SlidingWindowForVerif) Stop() { s.w.stopping <- struct{}{} }
+
+// AddSampleForVerif is AddSample with the window lifetime as an argument.
+func (stats *Stats) AddSampleForVerif(key string, value int64, lifetime time.Duration) {
+	stats.wlock.Lock()
+	defer stats.wlock.Unlock()
+	win, found := stats.windows[key]
+	if !found {
+		newwin, err := newSlidingWindow(lifetime)
+		if err != nil {
+			return
+		}
+		stats.windows[key] = newwin
+		win = newwin
+	}
+	win.Add(value)
+}
